@@ -38,7 +38,7 @@ CLAIMS = {
     'C07': dict(
         text='proof(i) is proved to return exactly the ideal path (one sibling per level, LSB-first direction bits) for every wf tree and position, verify() to accept iff the path folds to the ideal root; '
              'completeness (fold of the ideal path is the root) and position decoding are machine-checked lemmas over the ideal tree.',
-        note='Hash uninterpreted; fold/map based proof accessors are assumed in Verus and Kani-checked at bounded path length. Binding under hash injectivity is not yet a checked lemma (not claimed).',
+        note='Hash uninterpreted; fold/map based proof accessors are assumed in Verus and Kani-checked at bounded path length. Binding (other leaf / altered sibling / altered bit rejected) is machine-checked under the NAMED idealisation that the 2-to-1 hash is injective.',
         design='DESIGN.md §4 C07'),
     'C08': dict(
         text='override_range of each backend carries the ideal contract: accepted batch == reset every removed position then write the leaves, every other leaf / flag / mark unchanged; rejected batch changes nothing; no panic. '
@@ -74,7 +74,7 @@ CLAIMS = {
     'C15': dict(
         text='Every mutator of every backend has a postcondition on the written-flags view (write => 1, removal => 0, others unchanged, nothing marked above the high-water mark); '
              'proved by Verus on the real bodies; get_empty_leaves_indices == ascending unset positions below the mark (Kani, bounded).',
-        note='get_empty_leaves_indices iterator chain assumed in Verus and Kani-checked (Full, Optimal) / unchecked (adapter, same text). The reopen clause (flags are not persisted by PmTree::new on load) is a known limitation recorded in DESIGN.md, not decided by a contract.',
+        note='get_empty_leaves_indices iterator chain assumed in Verus and Kani-checked (Full, Optimal) / unchecked (adapter, same text). Known finding: PmTree::new zeroes the flags when it reopens an existing database (clauses reopen-*).',
         design='DESIGN.md §4 C15'),
     'C19': dict(
         text='Operator helpers are loop-free / width-bounded: Kani harnesses over full-domain operands are complete proofs of circom semantics, canonical results and no panic.',
